@@ -147,7 +147,9 @@ int32_t jls_track_repair_pointers(struct jls_core_track_s * track) {
         }
 
         if (descend || (0 == offset)) {
-            if (offset_descend && index_chunk.offset && summary_chunk.offset) {
+            // At level 1, offset_descend is 0 when every block of the level is omitted: the
+            // level is still valid, there is just no data chunk to continue with.
+            if ((offset_descend || (1 == level)) && index_chunk.offset && summary_chunk.offset) {
                 JLS_LOGI("descend signal_id %d track %d, level %d, offset %" PRIi64,
                          (int) signal_id, (int) track->track_type, (int) level, offset_descend);
                 index_chunk.hdr.item_next = 0;
